@@ -1162,3 +1162,339 @@ theorem finished_refused (s s' : CSys) (hi : FlagInv s) (id : Nat) (t : Txn) (ht
       | some ir => obtain ⟨i', r'⟩ := ir; simp only [hin] at h; cases h; exact inner_err i' r hin
 
 end Obao.CacheTxn
+
+namespace Obao.CacheTxn
+open Obao.SerialTxn Obao.InmemTxn
+
+/-! ### the commit window at lock granularity -/
+
+def pendingOf : Phase → List Key
+  | .invalidating p => p
+  | _ => []
+
+theorem tick_inval_cons (w : Win) (k : Key) (rest : List Key) (h : w.phase = .invalidating (k :: rest)) :
+    w.tick = { w with sys := { w.sys with lru := lruRemove w.sys.lru k }, phase := .invalidating rest } := by
+  unfold Win.tick; simp only [h]
+
+theorem tick_inval_nil (w : Win) (h : w.phase = .invalidating []) : w.tick = { w with phase := .done } := by
+  unfold Win.tick; simp only [h]
+
+/-- the underlying commit changes the backend only on keys that are then pending eviction -/
+theorem tick_before_parent (w : Win) (h : WinInv w) (hph : w.phase = .before) (k : Key) :
+    sget w.tick.sys.inner.parent k = sget w.sys.inner.parent k ∨ k ∈ pendingOf w.tick.phase := by
+  obtain ⟨tw, hp⟩ := h
+  simp only [hph] at hp
+  obtain ⟨_, ⟨c, hc⟩, ⟨t, ht⟩⟩ := hp
+  have wcOld := tw.2
+  obtain ⟨hops, hok, hnok, hfin⟩ := commit_facts t w.sys.inner.parent
+  unfold Win.tick
+  simp only [hph, hc, Sys.step, ht]
+  by_cases hr : (t.commit w.sys.inner.parent).2.2 = .ok
+  · simp only [hr, pendingOf]
+    by_cases hm : k ∈ c.modified
+    · exact Or.inr hm
+    · left
+      rcases (hok hr).2 with hp' | hp'
+      · rw [hp']
+      · apply replay_other _ _ _ _ hp'
+        intro o ho hw hk
+        exact hm (hk ▸ wcOld w.id c t hc ht o ho hw)
+  · left
+    cases hrr : (t.commit w.sys.inner.parent).2.2 <;> simp only [hrr] at hr ⊢ <;>
+      first | exact absurd rfl hr | exact absurd trivial hr | (rw [← hrr] at hr; rw [hnok hr])
+
+theorem winInv_fill (w : Win) (k : Key) (e : Option Val) (h : WinInv w)
+    (he : e = sget w.sys.inner.parent k ∨ k ∈ pendingOf w.phase) :
+    WinInv { w with sys := { w.sys with lru := lruSet w.sys.lru k e } } := by
+  obtain ⟨tw, hp⟩ := h
+  refine ⟨tw_congr w.sys _ tw rfl rfl, ?_⟩
+  have fillPC : (e = sget w.sys.inner.parent k) → ParentCoherent w.sys →
+      ParentCoherent { w.sys with lru := lruSet w.sys.lru k e } := by
+    intro he' pc k' e' hk'
+    by_cases hk : k' = k
+    · subst hk; simp only [lookup_lruSet_same] at hk'; cases hk'; exact he'
+    · simp only [lookup_lruSet_other _ _ _ _ hk] at hk'; exact pc k' e' hk'
+  cases hph : w.phase with
+  | before =>
+    simp only [hph, pendingOf] at hp he ⊢
+    have he' : e = sget w.sys.inner.parent k := by
+      rcases he with h1 | h1
+      · exact h1
+      · cases h1
+    exact ⟨fillPC he' hp.1, hp.2.1, hp.2.2⟩
+  | done =>
+    simp only [hph, pendingOf] at hp he ⊢
+    have he' : e = sget w.sys.inner.parent k := by
+      rcases he with h1 | h1
+      · exact h1
+      · cases h1
+    exact fillPC he' hp
+  | invalidating pending =>
+    simp only [hph, pendingOf] at hp he ⊢
+    intro k' e' hk'
+    by_cases hk : k' = k
+    · subst hk; simp only [lookup_lruSet_same] at hk'; cases hk'; exact he
+    · simp only [lookup_lruSet_other _ _ _ _ hk] at hk'; exact hp k' e' hk'
+
+theorem set_same {α : Type} (l : List α) (i : Nat) (r : α) (h : l[i]? = some r) : l.set i r = l := by
+  induction l generalizing i with
+  | nil => rfl
+  | cons x xs ih =>
+    cases i with
+    | zero => simp at h; simp [h]
+    | succ n => simp at h; simp [ih n h]
+
+def MInv (stripe : Key → Nat) (m : MWin) : Prop :=
+  WinInv m.w ∧ m.locking = true ∧
+  (∀ r ∈ m.readers, ∀ e, r.pc = .fetched e → e = sget m.w.sys.inner.parent r.key ∨ r.key ∈ pendingOf m.w.phase) ∧
+  (∀ k, (m.lock = .held k ∨ m.lock = .removed k) → ∀ r ∈ m.readers, stripe r.key = stripe k → r.pc.holds = false) ∧
+  (∀ k, m.lock = .held k → ∃ rest, m.w.phase = .invalidating (k :: rest))
+
+theorem minv_start (stripe : Key → Nat) (s : CSys) (id : Nat) (m : MWin) (hi : Inv s) (h : MWin.start s id true = some m) :
+    MInv stripe m := by
+  unfold MWin.start at h
+  cases hw : Win.start s id with
+  | none => simp [hw] at h
+  | some w =>
+    simp only [hw, Option.map_some, Option.some.injEq] at h
+    subst h
+    refine ⟨winInv_start s id w hi hw, rfl, ?_, ?_, ?_⟩
+    · intro r hr; simp at hr
+    · intro k hk; rcases hk with hk | hk <;> cases hk
+    · intro k hk; cases hk
+
+theorem minv_reader (stripe : Key → Nat) (m : MWin) (i : Nat) (h : MInv stripe m) :
+    MInv stripe (m.step stripe (.reader i)) := by
+  simp only [MWin.step]
+  cases hri : m.readers[i]? with
+  | none => exact h
+  | some r =>
+    have hrm : r ∈ m.readers := List.mem_of_getElem? hri
+    obtain ⟨hw, hl, hb, hc, hd⟩ := h
+    simp only
+    -- a generic closing argument: the commit side is untouched, reader `i` becomes `r'` with the same key
+    have close : ∀ (m' : MWin) (r' : Reader), m'.lock = m.lock → m'.locking = m.locking → m'.readers = m.readers →
+        m'.w.phase = m.w.phase → m'.w.sys.inner = m.w.sys.inner → WinInv m'.w → r'.key = r.key →
+        (∀ e, r'.pc = .fetched e → e = sget m.w.sys.inner.parent r.key ∨ r.key ∈ pendingOf m.w.phase) →
+        (r'.pc.holds = true → r.pc.holds = true ∨ m.writerHolds stripe r.key = false) →
+        MInv stripe { m' with readers := m'.readers.set i r' } := by
+      intro m' r' hlock hlocking hreaders hphase hinner hw' hkey hfetch hholds
+      refine ⟨hw', by rw [hlocking]; exact hl, ?_, ?_, ?_⟩
+      · intro r'' hr'' e he
+        simp only [hreaders] at hr''
+        rw [hphase, hinner]
+        rcases List.mem_or_eq_of_mem_set hr'' with h1 | h1
+        · exact hb r'' h1 e he
+        · subst h1; rw [hkey]; exact hfetch e he
+      · intro k hk r'' hr'' hs
+        simp only [hreaders] at hr''
+        rw [hlock] at hk
+        rcases List.mem_or_eq_of_mem_set hr'' with h1 | h1
+        · exact hc k hk r'' h1 hs
+        · subst h1
+          rw [hkey] at hs
+          cases hh : r''.pc.holds with
+          | false => rfl
+          | true =>
+            rcases hholds hh with h2 | h2
+            · have := hc k hk r hrm hs; rw [this] at h2; cases h2
+            · unfold MWin.writerHolds at h2
+              rcases hk with hk | hk <;> simp only [hk, hl, Bool.true_and, beq_eq_false_iff_ne, ne_eq] at h2 <;>
+                exact absurd hs.symm h2
+      · intro k hk
+        rw [hlock] at hk; rw [hphase]; exact hd k hk
+    unfold MWin.readerStep
+    cases hpc : r.pc with
+    | start =>
+      simp only
+      by_cases hwh : m.writerHolds stripe r.key = true
+      · simp only [hwh, if_true]
+        have : m.readers.set i r = m.readers := set_same _ _ _ hri
+        rw [this]; exact ⟨hw, hl, hb, hc, hd⟩
+      · have hwh' : m.writerHolds stripe r.key = false := by simpa using hwh
+        simp only [hwh', Bool.false_eq_true, if_false]
+        exact close m _ rfl rfl rfl rfl rfl hw rfl (by intro e he; cases he) (fun _ => Or.inr hwh')
+    | locked =>
+      simp only
+      cases m.w.sys.lru.lookup r.key with
+      | some e => exact close m _ rfl rfl rfl rfl rfl hw rfl (by intro e' he; cases he) (fun _ => Or.inl (by rw [hpc]; rfl))
+      | none => exact close m _ rfl rfl rfl rfl rfl hw rfl (by intro e' he; cases he) (fun _ => Or.inl (by rw [hpc]; rfl))
+    | hit e =>
+      exact close m _ rfl rfl rfl rfl rfl hw rfl (by intro e' he; cases he) (fun hh => by simp [RPc.holds] at hh)
+    | missed =>
+      refine close m _ rfl rfl rfl rfl rfl hw rfl ?_ (fun _ => Or.inl (by rw [hpc]; rfl))
+      intro e he; simp only [RPc.fetched.injEq] at he; exact Or.inl he.symm
+    | fetched e =>
+      have hfe := hb r hrm e hpc
+      refine close (m.setLru (lruSet m.w.sys.lru r.key e)) _ rfl rfl rfl rfl rfl ?_ rfl (by intro e' he; cases he)
+        (fun _ => Or.inl (by rw [hpc]; rfl))
+      exact winInv_fill m.w r.key e hw hfe
+    | filled e =>
+      exact close m _ rfl rfl rfl rfl rfl hw rfl (by intro e' he; cases he) (fun hh => by simp [RPc.holds] at hh)
+    | done e =>
+      simp only
+      have : m.readers.set i r = m.readers := set_same _ _ _ hri
+      rw [this]; exact ⟨hw, hl, hb, hc, hd⟩
+
+end Obao.CacheTxn
+
+namespace Obao.CacheTxn
+open Obao.SerialTxn Obao.InmemTxn
+
+theorem minv_spawn (stripe : Key → Nat) (m : MWin) (k : Key) (h : MInv stripe m) :
+    MInv stripe (m.step stripe (.spawn k)) := by
+  obtain ⟨hw, hl, hb, hc, hd⟩ := h
+  refine ⟨hw, hl, ?_, ?_, hd⟩
+  · intro r hr e he
+    simp only [MWin.step, List.mem_append, List.mem_singleton] at hr
+    rcases hr with hr | rfl
+    · exact hb r hr e he
+    · cases he
+  · intro k' hk r hr hs
+    simp only [MWin.step, List.mem_append, List.mem_singleton] at hr
+    rcases hr with hr | rfl
+    · exact hc k' hk r hr hs
+    · rfl
+
+theorem minv_commit (stripe : Key → Nat) (m : MWin) (h : MInv stripe m) : MInv stripe (m.commitStep stripe) := by
+  obtain ⟨hw, hl, hb, hc, hd⟩ := h
+  unfold MWin.commitStep
+  cases hph : m.w.phase with
+  | done => simp only; exact ⟨hw, hl, hb, hc, hd⟩
+  | before =>
+    simp only
+    refine ⟨winInv_tick m.w hw, hl, ?_, hc, ?_⟩
+    · intro r hr e he
+      have := hb r hr e he
+      simp only [hph, pendingOf] at this
+      have hcur : e = sget m.w.sys.inner.parent r.key := by
+        rcases this with h1 | h1
+        · exact h1
+        · cases h1
+      rcases tick_before_parent m.w hw hph r.key with h1 | h1
+      · left; rw [hcur, h1]
+      · exact Or.inr h1
+    · intro k hk
+      obtain ⟨rest, hrest⟩ := hd k hk
+      rw [hph] at hrest; cases hrest
+  | invalidating pending =>
+    cases pending with
+    | nil =>
+      cases hlk : m.lock with
+      | removed k0 =>
+        simp only
+        refine ⟨hw, hl, hb, ?_, ?_⟩
+        · intro k' hk'; rcases hk' with h1 | h1 <;> simp at h1
+        · intro k' hk'; simp at hk'
+      | held k0 =>
+        obtain ⟨rest0, hrest0⟩ := hd k0 hlk
+        rw [hph] at hrest0; cases hrest0
+      | free =>
+      simp only
+      rw [tick_inval_nil m.w hph]
+      have hc : ∀ k, (WLock.free = WLock.held k ∨ WLock.free = WLock.removed k) → ∀ r ∈ m.readers, stripe r.key = stripe k → r.pc.holds = false := by
+        intro k hk; rcases hk with h1 | h1 <;> cases h1
+      have hd : ∀ k, WLock.free = WLock.held k → ∃ rest, m.w.phase = Phase.invalidating (k :: rest) := by
+        intro k hk; cases hk
+      refine ⟨?_, hl, ?_, hc, ?_⟩
+      · have := winInv_tick m.w hw; rw [tick_inval_nil m.w hph] at this; exact this
+      · intro r hr e he
+        have := hb r hr e he
+        simp only [hph, pendingOf] at this ⊢
+        exact this
+      · intro k hk
+        obtain ⟨rest, hrest⟩ := hd k hk
+        rw [hph] at hrest; cases hrest
+    | cons k rest =>
+      cases hlk : m.lock with
+      | free =>
+        simp only
+        by_cases hbl : (m.locking && m.readerHolds stripe k) = true
+        · simp only [hbl, if_true]; exact ⟨hw, hl, hb, hc, hd⟩
+        · have hbl' : m.readerHolds stripe k = false := by
+            rw [hl] at hbl; simpa using hbl
+          simp only [hl, hbl', Bool.and_false, Bool.false_eq_true, if_false]
+          refine ⟨hw, rfl, hb, ?_, ?_⟩
+          · intro k' hk' r hr hs
+            have hk'' : k' = k := by
+              rcases hk' with h1 | h1 <;> simp at h1
+              exact h1.symm
+            subst hk''
+            unfold MWin.readerHolds at hbl'
+            have := (List.any_eq_false.mp hbl') r hr
+            cases hh : r.pc.holds with
+            | false => rfl
+            | true => simp [hh, hs] at this
+          · intro k' hk'
+            simp at hk'; subst hk'
+            exact ⟨rest, hph⟩
+      | held k0 =>
+        simp only
+        obtain ⟨rest0, hrest0⟩ := hd k0 hlk
+        rw [hph] at hrest0
+        have hk0 : k0 = k := by cases hrest0; rfl
+        subst hk0
+        rw [tick_inval_cons m.w k0 rest hph]
+        refine ⟨?_, hl, ?_, ?_, ?_⟩
+        · have := winInv_tick m.w hw; rw [tick_inval_cons m.w k0 rest hph] at this; exact this
+        · intro r hr e he
+          have := hb r hr e he
+          simp only [hph, pendingOf] at this ⊢
+          rcases this with h1 | h1
+          · exact Or.inl h1
+          · rcases List.mem_cons.mp h1 with h2 | h2
+            · -- the reader holds the read lock of the stripe whose write lock the committer holds: impossible
+              have hno := hc k0 (Or.inl hlk) r hr (by rw [h2])
+              rw [he] at hno; simp [RPc.holds] at hno
+            · exact Or.inr h2
+        · intro k' hk' r hr hs
+          have hk'' : k' = k0 := by
+            rcases hk' with h1 | h1 <;> simp at h1
+            exact h1.symm
+          subst hk''
+          exact hc k' (Or.inl hlk) r hr hs
+        · intro k' hk'; simp at hk'
+      | removed k0 =>
+        simp only
+        refine ⟨hw, hl, hb, ?_, ?_⟩
+        · intro k' hk'; rcases hk' with h1 | h1 <;> simp at h1
+        · intro k' hk'; simp at hk'
+
+theorem minv_step (stripe : Key → Nat) (m : MWin) (st : MStep) (h : MInv stripe m) : MInv stripe (m.step stripe st) := by
+  cases st with
+  | spawn k => exact minv_spawn stripe m k h
+  | reader i => exact minv_reader stripe m i h
+  | commit => exact minv_commit stripe m h
+
+theorem minv_run (stripe : Key → Nat) (m : MWin) (sched : List MStep) (h : MInv stripe m) : MInv stripe (m.run stripe sched) := by
+  induction sched generalizing m with
+  | nil => exact h
+  | cons st r ih => exact ih _ (minv_step stripe m st h)
+
+theorem inv_runL (stripe : Key → Nat) (s : CSys) (ls : List LEvent) (hi : Inv s) : Inv (CSys.runL stripe s ls) := by
+  induction ls generalizing s with
+  | nil => exact hi
+  | cons l r ih =>
+    cases l with
+    | ev e =>
+      simp only [CSys.runL]
+      cases hs : s.step e with
+      | none => exact ih s hi
+      | some sr => obtain ⟨s', res⟩ := sr; exact ih s' (inv_step s s' e res hs hi)
+    | window id sched =>
+      simp only [CSys.runL]
+      cases hm : MWin.start s id true with
+      | none => exact ih s hi
+      | some m =>
+        have h1 := (minv_run stripe m sched (minv_start stripe s id m hi hm)).1
+        obtain ⟨h2, h3⟩ := winInv_finish _ h1
+        exact ih _ (inv_of_winInv_done _ h2 h3)
+
+/-- when everything has returned nothing is left to finish -/
+theorem quiescent_finish (m : MWin) (h : m.quiescent = true) : m.w.finish = m.w := by
+  unfold MWin.quiescent at h
+  simp only [Bool.and_eq_true, beq_iff_eq] at h
+  unfold Win.finish Win.drain
+  simp [h.1.1]
+
+end Obao.CacheTxn
